@@ -1,8 +1,11 @@
 package props
 
 import (
+	"strconv"
 	"strings"
+	"sync/atomic"
 	"testing"
+	"time"
 
 	"github.com/db47h/decimal"
 	"pgregory.net/rapid"
@@ -32,7 +35,7 @@ func genC05(t *rapid.T) C05Case {
 	c := C05Case{M: h.GenMode(t, "zmode")}
 	lim := sqrtPrecLimit()
 	evenExp := func(e int64) int64 { return e - e%2 }
-	shape := rapid.IntRange(0, 12).Draw(t, "shape")
+	shape := rapid.IntRange(0, 13).Draw(t, "shape")
 	if h.Rare(t, "huge", 3000) {
 		// roots of tens of thousands of digits (a few per run): size-gated paths in the Newton iteration and the
 		// multiplications behind it
@@ -101,6 +104,24 @@ func genC05(t *rapid.T) C05Case {
 		// mantissas, stale buffers) must not leak into the exactness decision
 		c.X.Hist = h.GenHist(t, "xh")
 		c.P = uint(p)
+	case shape == 13:
+		// one-word operands whose mantissa sits at a binary boundary of the word (2^k, 2^64/10, 2^63/10 and
+		// neighbours; 3*2^61, 5*2^60): ten times or a hundred times such a word wraps around 64 bits, where a
+		// shortcut for small operands computes in machine integers
+		w := rapid.SampledFrom([]uint64{1 << 63, 1<<63 - 1, 1<<63 + 1, 1 << 62, 1 << 61, 1 << 60, 1 << 59, 3 << 61, 3 << 60, 5 << 60, 7 << 60, 1<<64 - 1,
+			1844674407370955161, 1844674407370955162, 1844674407370955160, 184467440737095516, 922337203685477580, 922337203685477581, 9223372036854775807 / 100,
+			4294967296, 4294967295, 4294967297, 18446744065119617025 % 10000000000000000000, 9999999999999999999, 3037000499, 3037000500, 9223372030926249001}).Draw(t, "w")
+		if rapid.Bool().Draw(t, "wpow2") {
+			w = uint64(1) << rapid.IntRange(1, 63).Draw(t, "wk")
+		}
+		w -= uint64(rapid.SampledFrom([]int{0, 0, 0, 1, 2}).Draw(t, "wd"))
+		w %= 10000000000000000000
+		ds := strings.TrimRight(strconv.FormatUint(w, 10), "0")
+		if ds == "" {
+			ds = "1"
+		}
+		c.X = h.Spec{F: "f", D: ds, E: int64(rapid.IntRange(-40, 40).Draw(t, "we")), P: uint(len(ds)) + uint(rapid.IntRange(0, 3).Draw(t, "wp")), M: h.GenMode(t, "xm")}
+		c.P = uint(rapid.IntRange(1, 60).Draw(t, "p"))
 	case shape == 12:
 		// roots a hair away from a power of ten: x = 100^j * (1 +- a*10^-k +- b*10^-m) with the first deviation near or far
 		// beyond the precision, so that the iteration may land on the other side of the power of ten (0.99..9 for a root
@@ -158,6 +179,8 @@ func genC05(t *rapid.T) C05Case {
 	return c
 }
 
+var c05Patience = func() *atomic.Int64 { v := new(atomic.Int64); v.Store(90); return v }()
+
 func checkC05(c C05Case, o *h.Obs) *h.Fail {
 	x := c.X.Build()
 	xv := c.X.Val()
@@ -186,7 +209,27 @@ func checkC05(c C05Case, o *h.Obs) *h.Fail {
 		return h.Failf("bad-case", "negative operand")
 	}
 	before := h.Read(x)
-	z.Sqrt(x)
+	if c.P <= 3000 && len(c.X.D) <= 6000 {
+		// Sqrt iterates and then corrects in loops: an operation of a millisecond that has not come back after
+		// 90 s does not terminate. (The only place where elapsed time decides; the margin is five orders of magnitude.)
+		done := make(chan interface{}, 1)
+		go func() {
+			defer func() { done <- recover() }()
+			z.Sqrt(x)
+		}()
+		select {
+		case r := <-done:
+			if r != nil {
+				panic(r)
+			}
+		case <-time.After(time.Duration(c05Patience.Swap(8)) * time.Second):
+			// (the abandoned goroutine keeps a core busy: after the first one, the cases that follow - the
+			// shrinking attempts - wait 8 s only)
+			return h.Failf("no-return", "Sqrt(%v) at precision %d %v has not returned after 90 s", xv, wantPrec, model.Mode(c.M))
+		}
+	} else {
+		z.Sqrt(x)
+	}
 	got := h.Read(z)
 	if !c.Alias {
 		if after := h.Read(x); !after.SameAll(before) {
@@ -251,7 +294,7 @@ func checkC05(c C05Case, o *h.Obs) *h.Fail {
 	return nil
 }
 
-const ruleC05 = "rapid-generated (x, receiver precision, receiver mode, x's own mode, aliasing): x constructed from its root (x = r^2 with r short, r of p..p+3 digits, or r carrying a tie / all-nines / just-above / just-below pattern at the precision; optionally perturbed by one unit far below), generic word-patterned x up to the precision bound, odd and even exponents over +-2^29, +-0 and +Inf, receiver precision 0, receiver == x, receivers that previously held negative / special / other finite values; exact squares carrying one stray digit far below, placed so that the operand's length is 19j-1..19j+2 digits; operands 100^j*(1 +- a*10^-k +- b*10^-m) whose root is a hair away from a power of ten, k from p-3 to 4p+45. Oracle: big.Int.Sqrt of an even-exponent scaling + remainder sticky + reference Round; Prec() and Mode() after == before (precision 0 -> x's). Non-trivial = root inexact at the precision, or perfect square under a directed mode, or x.mode != z.mode. Bound: precision <= 2000 (quick) / 20000 (thorough), plus about one case in 3000 at 19456..65536 digits."
+const ruleC05 = "rapid-generated (x, receiver precision, receiver mode, x's own mode, aliasing): x constructed from its root (x = r^2 with r short, r of p..p+3 digits, or r carrying a tie / all-nines / just-above / just-below pattern at the precision; optionally perturbed by one unit far below), generic word-patterned x up to the precision bound, odd and even exponents over +-2^29, +-0 and +Inf, receiver precision 0, receiver == x, receivers that previously held negative / special / other finite values; exact squares carrying one stray digit far below, placed so that the operand's length is 19j-1..19j+2 digits; operands 100^j*(1 +- a*10^-k +- b*10^-m) whose root is a hair away from a power of ten, k from p-3 to 4p+45; one-word operands at binary boundaries of the word (2^k, 2^64/10, ...). Oracle: big.Int.Sqrt of an even-exponent scaling + remainder sticky + reference Round; Prec() and Mode() after == before (precision 0 -> x's). Non-trivial = root inexact at the precision, or perfect square under a directed mode, or x.mode != z.mode. Bound: precision <= 2000 (quick) / 20000 (thorough), plus about one case in 3000 at 19456..65536 digits."
 
 var propC05 = &h.Prop[C05Case]{ID: "C05", Rule: ruleC05, Gen: genC05, Check: checkC05, Matchers: map[string]func(C05Case) bool{
 	// known finding F-34: receiver precisions within 2 of MaxPrec (the branch without guard digits): the Newton
